@@ -11,7 +11,9 @@ provider (harness/c17/driver_test.go, TestDriver) - case {"nc","nx","nch","ops":
   [5, order, port, cpport, version, [hops], chid]   OnChanOpenTry
   [6, ch] OnChanOpenConfirm   [7] OnChanOpenInit   [8] OnChanOpenAck   [9, c] MsgRemoveConsumer
   [10] a block after the unbonding period (deletes every stopped consumer)
-  [11, ch] OnTimeoutPacket   [12, ch] error acknowledgement   [13, ch] OnRecvSlashPacket   [14] [15] close init/confirm
+  [11, ch] OnTimeoutPacket (+ IBC core closes the ordered channel when the callback succeeds)
+  [12, ch] error acknowledgement   [13, ch] OnRecvSlashPacket   [14] [15] close init/confirm
+  [16, ch] world: the channel end is closed by IBC core
 consumer (harness/c17/consumer_test.go, TestConsumer) - case {"pre","kind","gconn","conns","ops"}
   [1, conn, x] [2, order, port, version, cpport, [hops], chid] [3] [4, ch, md] [5] [6, ch] [7, ch] [8]
 codes: order 0 NONE 1 UNORDERED 2 ORDERED; port 0 "provider" 1 "consumer" 2 "transfer"; version 0 "1" 1 "v1" 2 "".
@@ -27,8 +29,10 @@ RULE = ("provider: an enumeration of every OnChanOpenTry combination (3 ordering
         "on a new client / on a named connection (unbound, bound to the same or ANOTHER consumer, wrong chain id, unknown "
         "connection or client), retries of failed launches, Try/Confirm (first, repeated, second channel for a bound consumer, "
         "channels over other consumers' or nobody's client), provider-initiated Init/Ack, owner stops, timeouts, error acks, "
-        "slash packets on bound and unbound channels, deletion after unbonding and re-use of the freed client; the regression "
-        "corpus case corpus/C17/two_consumers_one_connection.json is always run.  consumer: every OnChanOpenInit combination "
+        "slash packets on bound and unbound channels, deletion after unbonding and re-use of the freed client; structured "
+        "close-and-relaunch histories (channel closed by a timeout / by IBC core / still open at the removal block, removal, a "
+        "new consumer launched on the SAME connection, new handshake, late timeout / slash / error-ack packets on the OLD "
+        "channel); the regression corpus cases in corpus/C17/ are always run.  consumer: every OnChanOpenInit combination "
         "and random histories of Init/Ack/Try/Confirm/VSC packets on first and other channels/CloseInit after InitGenesis from "
         "a provider-made genesis (new client or named connection).  non-trivial = a handshake step was accepted or a launch on "
         "a named connection was refused; distinct = distinct (action, result) sequences")
@@ -128,6 +132,9 @@ class Sim:
             self.phase[c] = 4
             self.to_remove.append(c)
 
+    def world_close(self, ch):
+        self.emit([16, ch])
+
     def purge(self):
         self.emit([10])
         for c in self.to_remove:
@@ -140,7 +147,7 @@ class Sim:
         self.to_remove = []
 
     def case(self):
-        nch = max([0] + list(self.chans) + [op[1] for op in self.ops if op[0] in (6, 11, 12, 13)]) + 2
+        nch = max([0] + list(self.chans) + [op[1] for op in self.ops if op[0] in (6, 11, 12, 13, 16)]) + 2
         return {"nc": self.ncons + 1, "nx": self.next_client + 2, "nch": min(nch, 40), "ops": self.ops}
 
 
@@ -291,8 +298,10 @@ def gen_history(rng):
                     s.confirm(ch2)
         elif r < 0.63:
             s.confirm(rng.randrange(st["chan"] + 2))
-        elif r < 0.67:
+        elif r < 0.66:
             s.emit([rng.choice([7, 8, 14, 15])])
+        elif r < 0.67:
+            s.world_close(rng.randrange(st["chan"] + 1))
         elif r < 0.74:
             launched = [c for c in range(s.ncons) if s.phase.get(c) == 3]
             s.stop(rng.choice(launched) if launched and rng.random() < 0.85 else rng.randrange(s.ncons + 2))
@@ -311,10 +320,83 @@ def gen_history(rng):
     return s.case()
 
 
+def closed_channel_case():
+    """the CCV channel is already CLOSED (timeout) when its consumer is removed; relaunch on the same connection;
+    late packets on the old channel"""
+    return {"nc": 3, "nx": 3, "nch": 4,
+            "ops": [[1, 7], [2, 0, 0], [4, 0, 7, [0]], [5, 2, 0, 1, 0, [0], 0], [3, 0, 0], [6, 0], [11, 0], [10],
+                    [4, 1, 7, [0]], [5, 2, 0, 1, 0, [0], 1], [3, 1, 0], [6, 1], [11, 0], [13, 0], [12, 0], [13, 1]]}
+
+
+def gen_relaunch(rng):
+    """close-and-relaunch rounds over one connection"""
+    s = Sim()
+    if rng.random() < 0.3:
+        s.add_client(rng.choice(CHAINS))           # an unrelated client first: ids differ from consumer ids
+    chain = rng.choice(CHAINS)
+    if rng.random() < 0.7:
+        s.add_client(chain)
+        x = s.next_client - 1
+        s.add_conn(0, x)
+        s.launch(s.ncons, chain, 0)
+    else:
+        s.launch(s.ncons, chain, None)
+        x = s.next_client - 1
+        s.add_conn(0, x)
+    ch = 0
+    old = []
+    for _ in range(rng.randint(1, 3)):
+        s.emit([5, 2, 0, 1, 0, [0], ch])
+        s.add_chan(ch, 0)
+        s.confirm(ch)
+        if rng.random() < 0.3:
+            s.emit([13, ch])
+        how = rng.random()
+        if how < 0.5:
+            s.timeout(ch, 11)                      # closes the channel
+            if rng.random() < 0.3:
+                s.timeout(ch, rng.choice([11, 12]))
+        elif how < 0.7:
+            s.timeout(ch, 12)                      # error ack: channel stays open ...
+            if rng.random() < 0.6:
+                s.world_close(ch)                  # ... unless IBC core closes it
+        else:
+            c = s.ch2c.get(ch, 0)
+            s.stop(c)
+            if rng.random() < 0.5:
+                s.world_close(ch)
+        if rng.random() < 0.15:
+            s.emit([rng.choice([11, 12, 13]), ch])  # still before the removal block
+        s.purge()
+        old.append(ch)
+        ch += 1
+        if rng.random() < 0.4:
+            for o in rng.sample(old, len(old)):
+                s.timeout(o, rng.choice([11, 12])) if rng.random() < 0.6 else s.emit([13, o])
+        s.launch(s.ncons, chain, 0)                # a new consumer on the same pre-existing connection
+    s.emit([5, 2, 0, 1, 0, [0], ch])
+    s.add_chan(ch, 0)
+    s.confirm(ch)
+    for _ in range(rng.randint(1, 5)):
+        o = rng.choice(old + [ch]) if rng.random() < 0.85 else ch + 1
+        tag = rng.choice([11, 12, 13, 13])
+        if tag == 13:
+            s.emit([13, o])
+        else:
+            s.timeout(o, tag)
+    if rng.random() < 0.5:
+        s.purge()
+        s.emit([13, rng.choice(old + [ch])])
+    return s.case()
+
+
 def gen_provider(rng, tier):
     yield regression_case()
+    yield closed_channel_case()
     yield from gen_enumeration()
-    total = 400 if tier == "quick" else 12000
+    for _ in range(60 if tier == "quick" else 1500):
+        yield gen_relaunch(rng)
+    total = 340 if tier == "quick" else 12000
     for _ in range(total):
         yield gen_history(rng)
 
@@ -421,6 +503,8 @@ CLAUSES = {
     9: "a launch bound a consumer to a client that was bound to another consumer, or recorded the wrong client",
     10: "a packet was attributed to a consumer other than the one bound to the channel's underlying client",
     11: "the client or channel of a consumer was replaced while it was bound",
+    12: "a deleted consumer is still bound: a channel or client is attributed to it, or it still has a client/channel",
+    13: "a deleted consumer changed phase (e.g. a late packet on its old channel stopped it again)",
     21: "the consumer's recorded provider client changed",
     22: "the consumer's provider channel changed after it was set",
     23: "consumer OnChanOpenInit accepted/rejected against the rule: no provider channel yet, ordered, ports, version, one "
@@ -440,7 +524,8 @@ def histogram(part, c):
     out = [part]
     tags = {op[0] for op in c["ops"]}
     if part == "provider":
-        names = {4: "launch", 5: "try", 6: "confirm", 9: "stop", 10: "purge", 11: "timeout", 12: "ackerr", 13: "slash"}
+        names = {4: "launch", 5: "try", 6: "confirm", 9: "stop", 10: "purge", 11: "timeout", 12: "ackerr", 13: "slash",
+                 16: "world_close"}
         out += [names[t] for t in sorted(tags) if t in names]
         if any(op[0] == 4 and op[3] for op in c["ops"]):
             out.append("launch_on_connection")
